@@ -128,7 +128,7 @@ GRID_OPS = ["from_mask", "dg_all_false", "dg_unmasked", "dg_edge", "dg_border", 
             "ds_apply_mask", "ds_noise_scaling", "ds_over_sampling", "ds_trimmed", "ds_simulate", "ds_s2n"]
 
 def gen_inputs(tier, rng):
-    n = 2600 if tier == "thorough" else 46
+    n = 1500 if tier == "thorough" else 40
     for i in range(n):
         for op in GRID_OPS:
             H, W = rng.randint(1, 7), rng.randint(1, 8)
@@ -141,7 +141,7 @@ def gen_inputs(tier, rng):
             m = rand_mask(rng, H, W, style)
             inp = {"op": op, "m": m, "ps": S(ps), "o": S(o), "d": S(d), "seed": rng.randrange(10 ** 9)}
             yield inp
-    k = 40 if tier == "thorough" else 3
+    k = 30 if tier == "thorough" else 3
     for i in range(k):
         for op in sorted(SPECIAL):
             ps, o, d = rand_frame(rng)
